@@ -190,6 +190,17 @@ def spec_of(name, case):
     return spec
 
 
+def _size_class(err):
+    """size class of an exponentiation error, part of the signature: the recorded finding (the checked eigen route accepts an
+    inaccurate decomposition) reaches about 1.3e-6 on the thorough lattice; anything an order of magnitude above that is a
+    different failure and must not share its signature"""
+    if err <= 1e-6:
+        return ""
+    if err <= 1e-5:
+        return "; error 1e-6..1e-5"
+    return "; error > 1e-5"
+
+
 def check_case(name, case, acc, report=True):
     fails, seen = [], set()
     kind, terms, form, eq = F.MODELS[name]
@@ -326,7 +337,7 @@ def check_case(name, case, acc, report=True):
             # the recorded finding is an error of 1e-8 .. 1e-6 accepted by the checked route; a larger error is a different
             # failure (e.g. the check not being applied at all) and must not share its signature
             err = max((abs(float(v)) for k, v in detail.items() if k in ("max", "min") and isinstance(v, (int, float))), default=0.0)
-            gross = "" if err <= 1e-6 and sig_text != "P has non-finite entries" else "; error > 1e-6"
+            gross = _size_class(err if sig_text != "P has non-finite entries" else float("inf"))
             fail(f"eigen-decomposition exponentiation inaccurate (> 1e-8) on nearly defective / badly scaled Q [expm={route}{gross}]", detail)
         else:
             fail(f"{sig_text} [{setting}; {cls}]", detail)
@@ -434,7 +445,7 @@ def direct_backends(name, full, Q, wp, fail, acc):
                 else:
                     c = cls
                 if bname in ("FastExponentiator", "CheckedExponentiator") and cls == ILL:
-                    gross = "" if d <= 1e-6 else "; error > 1e-6"
+                    gross = _size_class(d)
                     fail(f"eigen-decomposition exponentiation inaccurate (> 1e-8) on nearly defective / badly scaled Q [{bname}{gross}]",
                          {"t": t, "max_abs_diff": float(d)})
                 else:
